@@ -833,6 +833,9 @@ func (pm *ProtocolManager) handleGetBlocksMsg(msg *p2p.Msg, p *peer) error {
 	if query.From > pm.chain.CurrentBlock().Height() {
 		return nil
 	}
+	if query.To > pm.chain.CurrentBlock().Height() {
+		query.To = pm.chain.CurrentBlock().Height()
+	}
 	go pm.respBlocks(query.From, query.To, p, false)
 	return nil
 }
@@ -983,6 +986,9 @@ func (pm *ProtocolManager) handleGetBlocksWithChangeLogMsg(msg *p2p.Msg, p *peer
 	}
 	if query.From > pm.chain.CurrentBlock().Height() {
 		return nil
+	}
+	if query.To > pm.chain.CurrentBlock().Height() {
+		query.To = pm.chain.CurrentBlock().Height()
 	}
 	go pm.respBlocks(query.From, query.To, p, true)
 	return nil
